@@ -5,6 +5,9 @@ use h8verif::engine::stats::{verif_root, Findings};
 use std::time::Instant;
 
 fn main() {
+    // anyhow captures a backtrace for every Err when RUST_BACKTRACE is set: that is a global lock and
+    // milliseconds per error; the emulator's errors are ordinary outcomes here
+    std::env::set_var("RUST_LIB_BACKTRACE", "0");
     let args: Vec<String> = std::env::args().skip(1).collect();
     let mut id: Option<String> = None;
     let mut tier = match std::env::var("VERIF_TIER").ok().as_deref() {
